@@ -200,8 +200,7 @@ def numberResult (F pos : Nat) (scan : Option (Bytes × Bool × Bytes)) : LR :=
   match scan with
   | none => .err
   | some (text, dec, after) =>
-    if after.head?.any (fun d => d == 194 || d == 225 || d == 226 || d == 227) then .unsupported else
-    if after.head?.any (· ≥ 128) then .err else
+    if after.head?.any (· ≥ 128) && !((decodeRune after).any fun (r, _) => isSpaceRune r) then .err else
     if dec then (if floatTextOK text then consTok (.float text) pos text.length (lexFuel F after (pos + text.length)) else .err)
     else match atoi text with
       | some i => consTok (.int i) pos text.length (lexFuel F after (pos + text.length))
@@ -211,38 +210,25 @@ def numberResult (F pos : Nat) (scan : Option (Bytes × Bool × Bytes)) : LR :=
 theorem number_branch (c : Nat) (cs : Bytes)
     (hc : isDigitB c = true ∨ c = 46 ∨ (c = 45 ∧ cs.head? ≠ some 62)) (F pos : Nat) :
     lexFuel (F + 1) (c :: cs) pos = numberResult F pos (scanNumber (c :: cs) true false) := by
-  have fin : ∀ (x : Option (Bytes × Bool × Bytes)),
-      (match x with
-        | none => LR.err
-        | some (text, dec, after) =>
-          if Option.any (fun d => d == 194 || d == 225 || d == 226 || d == 227) (List.head? after) = true then
-            LR.unsupported
-          else
-            if Option.any (fun x => decide (128 ≤ x)) (List.head? after) = true then LR.err
-            else
-              if dec = true then
-                if floatTextOK text = true then
-                  consTok (Tok.float text) pos (List.length text) (lexFuel F after (pos + List.length text))
-                else LR.err
-              else
-                match atoi text with
-                | some i => consTok (Tok.int i) pos (List.length text) (lexFuel F after (pos + List.length text))
-                | none => LR.err) = numberResult F pos x := by
-    intro x
-    cases x with
-    | none => rfl
-    | some y => obtain ⟨t, d, a⟩ := y; simp [numberResult]
   rcases hc with hc | rfl | ⟨rfl, h62⟩
   · obtain ⟨f1, f2, f3, f4, f5, f6, f7, f8⟩ := digit_facts c hc
-    simp only [lexFuel]
-    simp [f1, f2, f3, f4, f5, f6, f7, f8, hc]
-    exact fin _
-  · simp only [lexFuel]
-    simp [isSpace, isPunct, isDigitB]
-    exact fin _
-  · simp only [lexFuel]
+    simp only [lexFuel, numberResult]
+    simp only [f1, f2, f3, f4, f5, f6, f7, f8, hc, Bool.false_eq_true, ↓reduceIte, Bool.false_and,
+      Bool.true_or, Bool.or_true]
+    cases scanNumber (c :: cs) true false with
+    | none => rfl
+    | some y => obtain ⟨t, d, a⟩ := y; rfl
+  · simp only [lexFuel, numberResult]
+    simp only [isSpace, isPunct, isDigitB, Bool.false_eq_true, ↓reduceIte]
+    simp
+    cases scanNumber (46 :: cs) true false with
+    | none => rfl
+    | some y => obtain ⟨t, d, a⟩ := y; rfl
+  · simp only [lexFuel, numberResult]
     simp [isSpace, isPunct, isDigitB, h62]
-    exact fin _
+    cases scanNumber (45 :: cs) true false with
+    | none => rfl
+    | some y => obtain ⟨t, d, a⟩ := y; rfl
 
 /-- scanning an optional minus followed by digits and at most one dot, up to a stop -/
 theorem scan_text (neg : Bool) (body rest : Bytes) (hne : body ≠ [])
@@ -357,7 +343,7 @@ theorem lex_float (t : Bytes) (h : (Tok.float t).lexable = true) (rest : Bytes) 
           · omega
       simp only [Tok.text, List.cons_append]
       rw [number_branch 45 _ (Or.inr (Or.inr ⟨rfl, hhead⟩)) F pos]
-      simp only [hscan, numberResult, hh.1, hh.2, Bool.false_eq_true, ↓reduceIte, hok]
+      simp only [hscan, numberResult, hh.1, hh.2, Bool.false_eq_true, ↓reduceIte, hok, Bool.false_and]
     · have hne45 : (c == 45) = false := by simpa using hc45
       simp only [floatShape, List.head?_cons, Option.some.injEq, beq_iff_eq, hc45, ↓reduceIte,
         Bool.and_eq_true, Option.some_beq_some, hne45, Bool.false_eq_true] at h
@@ -374,7 +360,7 @@ theorem lex_float (t : Bytes) (h : (Tok.float t).lexable = true) (rest : Bytes) 
       have hc : isDigitB c = true ∨ c = 46 := hb c (by simp)
       simp only [Tok.text, List.cons_append]
       rw [number_branch c _ (by rcases hc with hc | hc; exact Or.inl hc; exact Or.inr (Or.inl hc)) F pos]
-      simp only [hscan, numberResult, hh.1, hh.2, Bool.false_eq_true, ↓reduceIte, hok]
+      simp only [hscan, numberResult, hh.1, hh.2, Bool.false_eq_true, ↓reduceIte, hok, Bool.false_and]
 
 /-! ### feature IDs -/
 
@@ -392,21 +378,55 @@ theorem unparse_head (f : FeatureID) : ∃ r, unparse f true = 47 :: r := by
       rcases hmem with rfl | rfl | rfl | rfl | rfl | rfl | rfl <;> exact ⟨_, rfl⟩
     · exact ⟨_, rfl⟩
 
+theorem idByte_ascii (c : Nat) (h : isIDByte c = true) : c < 128 := by
+  simp only [isIDByte, isLetter, isDigitB, Bool.or_eq_true, Bool.and_eq_true, decide_eq_true_eq, beq_iff_eq] at h
+  omega
+
+theorem spanID_stop (rest : Bytes) (hs : Stops rest) (F : Nat) : spanID F rest = ([], rest, false) := by
+  have hs' : rest = [] ∨ ∃ c r, rest = c :: r ∧ c < 128 ∧ isIDByte c = false := by
+    rcases hs with rfl | ⟨c, r, rfl, hc⟩
+    · exact Or.inl rfl
+    · refine Or.inr ⟨c, r, rfl, ?_⟩
+      rcases hc with rfl | rfl | rfl | rfl | rfl | rfl <;> exact ⟨by omega, by decide⟩
+  rcases hs' with rfl | ⟨c, r, rfl, hlt, hf⟩
+  · cases F <;> rfl
+  · cases F with
+    | zero => rfl
+    | succ F =>
+      unfold spanID
+      simp only [hlt, hf, ↓reduceIte, Bool.false_eq_true]
+
+/-- on ASCII the rune scan of `lexFeatureIDLiteral` is the byte scan -/
+theorem spanID_ascii (a rest : Bytes) (ha : ∀ c ∈ a, isIDByte c = true) (hs : Stops rest) :
+    ∀ (F : Nat), a.length + rest.length ≤ F → spanID F (a ++ rest) = (a, rest, false) := by
+  induction a with
+  | nil => intro F _; exact spanID_stop rest hs F
+  | cons c cs ih =>
+    intro F hF
+    cases F with
+    | zero => simp at hF
+    | succ F =>
+      have hc := ha c (by simp)
+      have ih' := ih (fun x hx => ha x (by simp [hx])) F (by simp at hF; omega)
+      have hlt := idByte_ascii c hc
+      show spanID (F + 1) (c :: (cs ++ rest)) = (c :: cs, rest, false)
+      unfold spanID
+      simp only [hlt, hc, ↓reduceIte, ih']
+
 theorem lex_id (f : FeatureID) (h : (Tok.id f).lexable = true) (rest : Bytes) (hs : Stops rest) :
     LexesAs (.id f) rest := by
   intro F pos
   simp only [Tok.lexable, Bool.and_eq_true, decide_eq_true_eq] at h
   obtain ⟨⟨hvalid, hv⟩, hall⟩ := h
   obtain ⟨r, hu⟩ := unparse_head f
-  have hsp := spanWhile_append isIDByte (unparse f true) rest (fun x hx => List.all_eq_true.mp hall x hx)
-    (stops_not hs stop_facts_id)
+  have hsp := spanID_ascii (unparse f true) rest
+    (fun x hx => List.all_eq_true.mp hall x hx) hs ((unparse f true) ++ rest).length (by simp)
   have hparse := B6.Props.C31.alias_roundtrip f hv hvalid true
-  have hh := stops_head rest hs
   simp only [Tok.text]
   rw [hu] at hsp hparse ⊢
-  simp only [List.cons_append] at hsp ⊢
+  simp only [List.cons_append, List.length_cons, List.length_append] at hsp ⊢
   simp only [lexFuel]
-  simp [isSpace, isPunct, hsp, hparse, hh.2]
+  simp [isSpace, isPunct, hsp, hparse]
 
 /-! ## a whole token list -/
 
